@@ -14,6 +14,13 @@ use oxidd_core::{
 mod set_var_order;
 pub use set_var_order::{set_var_order, set_var_order_seq};
 
+/// Hooks for out-of-tree proof harnesses (feature `verif-hooks`)
+#[cfg(feature = "verif-hooks")]
+#[doc(hidden)]
+pub mod verif_hooks {
+    pub use crate::set_var_order::verif_hooks::*;
+}
+
 /// Swap the level given by `upper_no` with the level directly below.
 ///
 /// # Safety
